@@ -197,6 +197,63 @@ theorem vlq_complete_prefix (v : Vlq) (xs ys : Bytes) (h : ∀ v', (vlqLong v xs
 
 example : (vlqLong ⟨0, 0⟩ [0x80 + 22, 0x03]).1 = .done 203 := by decide
 
+/-- **The varint decoder computes the Avro value.** From the initial state, `n ≤ 9`
+continuation bytes (high bit set) followed by a terminator decode — however the bytes are
+split across `long()` calls, by `vlq_chunking` — to the zig-zag decoding of the base-128 value
+of the whole sequence; a 10-byte varint is accepted exactly when its last byte is 0 or 1. -/
+theorem vlq_decodes_varint (xs : Bytes) (t : Nat) (hxs : ∀ b ∈ xs, 128 ≤ b ∧ b < 256) (ht : t < 128)
+    (hlen : xs.length ≤ 8 ∨ (xs.length = 9 ∧ t < 2)) :
+    vlqLong ⟨0, 0⟩ (xs ++ [t]) = (.done (zigzag (varintVal (xs ++ [t]))), xs.length + 1) := by
+  have := vlqLong_value ⟨0, 0⟩ 0 xs t vlq_inv_init hxs ht (by omega)
+  simpa using this
+
+/-- **No `u64` overflow in `in_progress`.** In every reachable state the accumulator is below
+`2^63` and the shift at most 63 (so `<< self.shift` never shifts out of range), and a completed
+value is below `2^64`: the guard `shift == 63 && byte >= 0x02` is exactly strong enough. -/
+theorem vlq_accumulator_fits_u64 (v : Vlq) (k b : Nat) (h : VlqInv v k) (hb : b < 256) :
+    v.acc < 2 ^ 63 ∧ v.shift ≤ 63 ∧
+    (∀ v', vlqByte v b = .more v' → VlqInv v' (k + 1)) ∧
+    (∀ x, vlqByte v b = .done x → v.acc + (b % 128) * 2 ^ (7 * k) < 2 ^ 64) :=
+  ⟨(vlq_inv_fits v k h).1, (vlq_inv_fits v k h).2,
+   fun v' hv => (vlq_step_more v v' k b h hb hv).1,
+   fun x hx => (vlq_step_done v k b x h hb hx).2⟩
+
+/-- An eleventh group is never read: after nine continuation bytes any byte ≥ 2 is an error. -/
+theorem vlq_overlong_rejected (v : Vlq) (b : Nat) (h : VlqInv v 9) (hb : 2 ≤ b) :
+    vlqByte v b = .err := vlqByte_overlong v b h hb
+
+/-- zig-zag decoding inverts zig-zag encoding -/
+theorem zigzag_roundtrip (i : Int) : zigzag (zigzagEnc i) = i := by
+  unfold zigzag zigzagEnc
+  by_cases h : 0 ≤ i
+  · simp only [h, ↓reduceIte]
+    have : 2 * i.toNat % 2 = 0 := by omega
+    simp only [this, ↓reduceIte]
+    omega
+  · simp only [h, ↓reduceIte]
+    have : (2 * (-i - 1).toNat + 1) % 2 ≠ 0 := by omega
+    simp only [this, ↓reduceIte]
+    omega
+
+example : vlqLong ⟨0, 0⟩ ([0xFF, 0xFF, 0xFF, 0xFF, 0xFF, 0xFF, 0xFF, 0xFF, 0xFF] ++ [1]) =
+    (.done (-9223372036854775808), 10) := by decide
+
+/-- **A complete OCF block is decoded to exactly that block.** Count varint, size varint,
+`size` data bytes and the 16 sync bytes (`AVRO_SYNC_LEN`, offset `16 - bytes_remaining`) in
+*any* chunking (by `blk_chunking_independent`) yield the block `(count, data, sync)` and leave
+the decoder in its initial state, ready for the next block. -/
+theorem blk_parses_block (cb sb data sync : Bytes) (c : Nat) (cs : List Bytes)
+    (hc : vlqLong ⟨0, 0⟩ cb = (.done (c : Int), cb.length))
+    (hs : vlqLong ⟨0, 0⟩ sb = (.done (data.length : Int), sb.length))
+    (hsync : sync.length = 16) (hp : IsPartition cs (cb ++ sb ++ data ++ sync)) :
+    runChunks blkFeed blkInit cs = (blkInit, [⟨c, data, sync⟩]) := by
+  rw [blk_chunking_independent cs _ hp, blk_refinement]
+  exact blk_parses_block_lemma cb sb data sync c hc hs hsync
+
+example : runChunks blkFeed blkInit [[4, 6, 1], [2, 3, 9, 9, 9, 9, 9, 9, 9, 9], [], [9, 9, 9, 9, 9, 9, 9, 9]] =
+    (blkInit, [⟨2, [1, 2, 3], List.replicate 16 9⟩]) :=
+  blk_parses_block [4] [6] [1, 2, 3] (List.replicate 16 9) 2 _ (by decide) (by decide) (by decide) (by decide)
+
 /-! ## JSON `TapeDecoder` / `Decoder` -/
 
 /-- **Chunking independence (JSON).** The JSON decoder model (`TapeDecoder::decode` read one byte
